@@ -4,7 +4,7 @@ comes from `VERIF_NO_WITNESS=1 tool/seedcheck.sh ..` and is stored as check_resu
 import json, os, re, sys
 V = os.path.dirname(os.path.dirname(os.path.abspath(__file__)))
 for l in open(sys.argv[1]):
-    m = re.match(r'(C\d\d)/(C\d\d-(?:r[23]-)?\d) :: (\S+)[^:]*(?::: (.*))?', l.strip())
+    m = re.match(r'(C\d\d)/(C\d\d-(?:r[234]-)?\d) :: (\S+)[^:]*(?::: (.*))?', l.strip())
     if not m:
         continue
     d = os.path.join(V, 'seeded', m.group(2))
